@@ -1,6 +1,6 @@
 (* C15 - replacement strings follow the $N and backslash rules exactly.
    Only statements, pins and assumption reports live here; proofs are in Proofs/. *)
-From RX Require Import Base.Prelude Spec.Repl Model.Engine Model.Matcher Model.Api Proofs.ReplProof Proofs.ScanFacts Proofs.ReplaceFacts.
+From RX Require Import Base.Prelude Spec.Repl Model.Engine Model.Matcher Model.Api Proofs.ReplProof Proofs.ScanFacts Proofs.ReplaceFacts Spec.Syntax Spec.Parse Model.Compiler Proofs.PlainPattern Proofs.PlainSpec.
 
 (* The faithful expansion loop of ReMatcher::replace (index arithmetic, the >9-groups digit loop,
    the simple_replacement flag) equals the replacement grammar of Spec/Repl.v: for every
@@ -62,8 +62,32 @@ Example C15_ex2 :
   /\ parse_repl 3 [36;97]%N = PInvalid /\ parse_repl 3 [97;92]%N = PInvalid.
 Proof. vm_compute. repeat split. Qed.
 
+(* the property from the strings, for patterns of ordinary characters (no group but $0): pattern
+   text, flag string, input and replacement in; with a replacement the grammar accepts, the input with
+   every match replaced by the rendering of the replacement's items; with one it rejects, the error as
+   soon as there is a match.  No hypothesis about parser, matcher or scan loop. *)
+Theorem C15_ordinary_pattern_replace_end_to_end :
+  forall xpath pat fls input repl,
+    forallb ordinary pat = true -> pat <> [] -> (N.of_nat (length pat) <= umax)%N ->
+    existsb (N.eqb 59) fls = false ->
+    match spec_flags xpath fls with
+    | Valid sf =>
+        s_q sf = false -> s_x sf = false ->
+        exists re, regex_new false xpath pat fls = Ok re
+          /\ match parse_repl 0 repl with
+             | PItems its => replace_all re input repl
+                             = Ok (rep_out (matches (r_prog re) input) 0 input its (length input + 2) 0 st0)
+             | PInvalid => forall s', 0 < length input -> matches (r_prog re) input 0 st0 = MTrue s' ->
+                                      replace_all re input repl = Err EInvalidRepl
+             | PFuel => False
+             end
+    | _ => True
+    end.
+Proof. exact ordinary_replace_end_to_end. Qed.
+
 Print Assumptions C15_expand.
 Print Assumptions C15_parse_total.
 Print Assumptions C15_no_match_returns_input.
 Print Assumptions C15_replace_valid_partial.
 Print Assumptions C15_replace_invalid_partial.
+Print Assumptions C15_ordinary_pattern_replace_end_to_end.
